@@ -200,6 +200,11 @@ def project_ws(script: Dict[str, Any], trace: List[Dict[str, Any]]) -> Optional[
             if ev["n"] % unit:
                 return None
             evs.append({"k": "frag", "kind": ev["kind"], "first": ev["first"], "fin": ev["fin"], "part": ev["n"] // unit})
+        elif e == "c_ws" and ev.get("early"):
+            begun = True
+            evs.append({"k": "early"})
+        elif e == "wire" and ev.get("kind") == "head" and ev.get("status") == 400:
+            evs.append({"k": "w400"})
         elif e == "c_ws" and ev.get("kind") == "close":
             evs.append({"k": "cclose", "code": 1005 if ev["size"] < 0 else int(ev["size"])})
         elif e == "c_eof":
